@@ -155,7 +155,13 @@ def run_case(case, tier):
     # named after the title, one per round
     if sum(map(ord, case.get("id", ""))) % 3 == 0:
         case = dict(case, title="run v1.5 U.S. style %s" % case["iso"])
-    return pipeline.run(case, monitor)
+    # an eighth of the runs are made the way the report scripts make them (create_pptx_with_all_countries=True, the function's
+    # default): the result then also passes through the plotting code before it is returned
+    if sum(map(ord, case.get("id", ""))) % 8 == 1:
+        case = dict(case, plots=True)
+    r = pipeline.run(case, monitor)
+    r["obs"]["plots"] = bool(case.get("plots"))
+    return r
 
 
 def summarize(cases, records, tier):
